@@ -1,6 +1,6 @@
 (* C06 — property theorems.  Model: RModel/Containers.v (RFC 1952 / RFC 1950 framing with Go's rules, CRC-32 and Adler-32 written out) over the reference inflater; compared with fastgo's gzip/zlib Readers and with the standard library's on every run.
    Only statements, each closed by `exact`, followed by Print Assumptions. *)
-From Verif Require Import ContainersSpec ContainersProofs InflateMono.
+From Verif Require Import ContainersSpec ContainersProofs InflateMono ContainerWSpec ContainerWProofs.
 Open Scope N_scope.
 
 (* every representable header is read back exactly *)
@@ -28,3 +28,14 @@ Theorem C06_checksum_width : checksum_width_statement.
 Proof. exact checksum_width. Qed.
 Print Assumptions C06_checksum_width.
 (* the DEFLATE body written by fastgo's writers is a complete stream for the payload: C01 *)
+
+(* fastgo's own gzip / zlib Writers (models byte-exact against the implementation): Writes and
+   Flushes in any order, then Close: every call returns nil and what the destination holds is read
+   back by the container reader model as the same header and exactly the data written, then io.EOF *)
+Theorem C06_gzw_roundtrip : gzw_roundtrip_statement.
+Proof. exact gzw_roundtrip. Qed.
+Print Assumptions C06_gzw_roundtrip.
+
+Theorem C06_zlw_roundtrip : zlw_roundtrip_statement.
+Proof. exact zlw_roundtrip. Qed.
+Print Assumptions C06_zlw_roundtrip.
